@@ -469,7 +469,7 @@ def run(ctx):
         COVREL[k_] = 0 if isinstance(COVREL[k_], int) else 0.0
     import os
     only = os.environ.get("C15_ONLY")     # development aid: run a single part (never set by ./check itself)
-    from harness.props.c15_gauss import run_gauss, run_loop, run_calls
+    from harness.props.c15_gauss import run_gauss, run_loop, run_calls, run_opt_huge
     parts = [("direct", run_direct), ("routes", run_routes), ("opt", run_opt), ("ml_full", run_ml_full), ("starts", run_starts),
              ("opt_scale", run_opt_scale), ("histories", run_histories), ("threshold", run_threshold)]
     for nm, fn in parts:
@@ -479,6 +479,8 @@ def run(ctx):
         run_gauss(ctx, cuqi, np.random.RandomState(ctx.seed * 7919 + 1503), thorough, oracle_point)
     if only is None or "loop" in only.split(","):
         run_loop(ctx, cuqi, np.random.RandomState(ctx.seed * 7919 + 1504), thorough)
+    if only is None or "opt_huge" in only.split(","):
+        run_opt_huge(ctx, cuqi, np.random.RandomState(ctx.seed * 7919 + 1506), thorough)
     if only is None or "calls" in only.split(","):
         run_calls(ctx, cuqi, np.random.RandomState(ctx.seed * 7919 + 1505), thorough)
     ctx.extra_cov["direct_draw_covariance_relative"] = dict(COVREL)
@@ -1568,7 +1570,7 @@ def run_histories(ctx, cuqi, rs, thorough):
         mmod, cmod = outs2[2 * i], outs2[2 * i + 1]
         opnames = "-".join(o for o, _ in pr["ops"])
         key = f"MAP:history:{pr['side']}:{pr['param']}:{opnames}:{pr['cur'].shape}"
-        desc = {"side": pr["side"], "param": pr["param"], "history": [(o, sp.shape, sp.value) for o, sp in pr["ops"]], "initial": [pr["first"].shape, pr["first"].value],
+        desc = {"side": pr["side"], "param": pr["param"], "history": [(o, sp.shape, sp.value) for o, sp in pr["ops"]], "initial": [pr["first"].shape, pr["first"].value], "MAP_and_sample_requested": ["before the operations", "before and between the operations", "before the operations", "only after"][pr["k"] % 4],
                 "other": [pr["other"].param, pr["other"].shape, pr["other"].value], "A": pr["A"].tolist(), "mean": pr["mean"].tolist(), "b": pr["b"].tolist()}
         ctx.case("history-" + pr["side"] + "-" + pr["param"], desc)
         try:
@@ -1579,7 +1581,23 @@ def run_histories(ctx, cuqi, rs, thorough):
                 else:
                     x = Gaussian(pr["mean"], **pr["other"].kwargs()); y = Gaussian(M(x), **pr["first"].kwargs())
                 BP = BayesianProblem(y, x).set_data(y=pr["b"])
+                # estimates are requested BEFORE and BETWEEN the operations too (a sweep over parameters of one problem):
+                # whatever those calls leave behind must not influence the estimate of the CURRENT problem
+                def precall():
+                    st_ = np.random.get_state()
+                    try:
+                        for fn in (lambda: BP.MAP(disp=False), lambda: BP.sample_posterior(1)):
+                            try:
+                                fn()
+                            except Exception:
+                                pass
+                    finally:
+                        np.random.set_state(st_)
+                if pr["k"] % 4 != 3:
+                    precall()
                 for o, sp in pr["ops"]:
+                    if pr["k"] % 4 == 1:
+                        precall()
                     g = BP.prior if pr["side"] == "prior" else BP.likelihood.distribution
                     if o == "cc":
                         g.compute_cov()
